@@ -19,6 +19,9 @@
        OdCheck         = verifyOneChunk of the on-demand path (reads gr.verify), surviving data pending
        Commit i        = w.Commit() of pending writer i (the only step that makes bytes visible)
        Evict k         = the cache dropping an entry
+       MgStart / MgHit / MgFetch / MgCommit / MgAbort = the passthrough merge (GetPassthroughFd): a whole-file cache
+                         writer, per chunk either the cached bytes appended as they are or fetched bytes appended after
+                         verifyOneChunk, then Commit under genID(id, 0, total) or Abort
        SkipVerify, LVerify d, LSkip = reader / layer level API calls
      An arbitrary interleaving of prefetch goroutines, on-demand reads and VerifyTOC is an arbitrary [list op].
    * COMPOSITES ([hop], [hstep]) are the sequential API calls the harness issues (OpenFile+ReadAt, one
@@ -239,6 +242,15 @@ Definition step (s : st) (o : op) : st * out :=
   end.
 
 Definition exec (s : st) (os : list op) : st := fold_left (fun s o => fst (step s o)) os s.
+
+(* Opening a layer (estargz parseTOCEStargz / zstdchunked / db init, after the repair of C05-F24): the TOC file (the
+   whole decompressed TOC stream, including whatever follows the JSON value) is hashed; the JSON decoder [dec] (not
+   modelled: any partial function of the stream) yields the chunk tables. *)
+Definition open_layer (dec : bytes -> option toc) (stream : bytes) : option st :=
+  match dec stream with
+  | Some T => Some (init T (H stream))
+  | None => None
+  end.
 
 (* ---- composites ---- *)
 
